@@ -193,6 +193,7 @@ type Worker struct {
 	sigs        []*sigRecord
 	keys        []*testKey
 	scaled      map[*Term]*scaledInfo
+	edSigs      []*edRecord
 	opaqueN     int
 
 	// stats
@@ -766,6 +767,7 @@ func (w *Worker) runPath(fn *ssa.Function, prefix []Decision) {
 	w.sigs = w.sigs[:0]
 	w.keys = w.keys[:0]
 	w.scaled = nil
+	w.edSigs = w.edSigs[:0]
 	w.freshN = 0
 	w.opaqueN = 0
 	w.pathViol = 0
